@@ -4,7 +4,7 @@ import ast
 from sa import automata as A
 from sa.core import (caching_decorators, AnalysisError, FUNC, assignments, call_name, class_attr, const, dotted, enclosing, enclosing_func,
                      enclosing_stmt, is_attr, is_name, is_self_attr, literal, norm, params, parent, walk_local, names_in)
-from sa.guards import facts, always_leaves, _block_of
+from sa.guards import facts, always_leaves, _block_of, enclosing_loops
 from sa.strshape import Shaper
 from sa.poly import linear
 
@@ -73,18 +73,30 @@ def run(cx):
     nonempty_emit = emit
     w, n1 = A.find_in_a_not_b(emit, A.alt(rx, ("eps",)))
     cx.count("automaton_product_states", n1)
-    cx.ob("R09a", pat_node, w is None,
+    _ob = cx.ob
+
+    def lang_ob(rule, node, ok, detail, stmt=None):
+        """obligations about the emitted language: a counter-example through a part of the emitter that was widened to
+        "any string" proves nothing - the obligation is then undecided, not refuted"""
+        if not ok and unknown:
+            if not getattr(cx, "errors", None):
+                cx.errors = getattr(cx, "errors", None) or []
+            if not any(getattr(e_, "rule", "") == "R09a" for e_ in cx.errors):
+                cx.errors.append(AnalysisError("R09a", f"{REL}::_ColorSequences.make", f"emitted language not determined (widened at {unknown[:3]}); `{stmt}` not decided"))
+            return
+        _ob(rule, node, ok, detail, stmt=stmt)
+    lang_ob("R09a", pat_node, w is None,
           "L(emitted sequences) ⊆ L(stripping pattern)" if w is None else
           f"the package can emit {w!r} which the stripping pattern {pattern!r} does not match as a whole", stmt="inclusion emit ⊆ strip")
     # exactness: no proper prefix of an emitted sequence is matched; no extension by non-ESC text is matched
     p, n2 = A.find_proper_prefix_in(emit, rx)
     cx.count("automaton_product_states", n2)
-    cx.ob("R09a", pat_node, p is None or p == "", "no proper prefix of an emitted sequence is itself a match" if (p is None or p == "") else
+    lang_ob("R09a", pat_node, p is None or p == "", "no proper prefix of an emitted sequence is itself a match" if (p is None or p == "") else
           f"the pattern also matches the proper prefix {p!r} of an emitted sequence (a match may stop early)", stmt="prefix-freeness")
     ext = A.cat(_nonempty(emit), A.charset(A.SIGMA - {A.ESC}), A.ANY)
     x, n3 = A.find_common(ext, rx)
     cx.count("automaton_product_states", n3)
-    cx.ob("R09a", pat_node, x is None, "a match cannot extend past the end of a sequence into visible text" if x is None else
+    lang_ob("R09a", pat_node, x is None, "a match cannot extend past the end of a sequence into visible text" if x is None else
           f"the pattern can also match {x!r}: visible characters after a sequence would be stripped", stmt="no over-consumption")
     # the pattern must not match the empty string or plain visible text
     e_ok = not A.accepts_empty(rx)
@@ -107,7 +119,7 @@ def run(cx):
     sgr = A.alt(("eps",), A.cat(A.lit(A.ESC + "["), code, A.star(A.cat(A.lit(";"), code)), A.lit("m")), A.lit(A.ESC + "[0m"))
     w2, n4 = A.find_in_a_not_b(emit, sgr)
     cx.count("automaton_product_states", n4)
-    cx.ob("R09a", make, w2 is None, "every emitted sequence is ESC[ code(;code)* m with SGR codes, or the reset" if w2 is None else
+    lang_ob("R09a", make, w2 is None, "every emitted sequence is ESC[ code(;code)* m with SGR codes, or the reset" if w2 is None else
           f"make() can produce {w2!r}, which is not a well-formed SGR sequence of this package", stmt="emit ⊆ SGR grammar")
 
     # ------------------------------------------------------------------ R09h
@@ -195,7 +207,7 @@ def _check_make(cx, make, elem, sh):
     # R09d: every append to the code list is control dependent on `not no_color`
     apps = [c for c in walk_local(make) if isinstance(c, ast.Call) and isinstance(c.func, ast.Attribute) and c.func.attr in ("append", "extend", "insert")
             and is_name(c.func.value, codes)]
-    cx.at_least("R09d", "code appends", len(apps), 7)
+    cx.at_least("R09d", "code appends", len(apps), 2)
     nc = "no_color"
     cx.need(nc in params(make), "R09d", make, "no_color parameter vanished")
     for a in apps:
@@ -217,6 +229,31 @@ def _check_make(cx, make, elem, sh):
                 eff.setdefault(flag, set()).add(a.args[0].value)
             if not g:
                 cx.ob("R09f", a, False, f"SGR code {a.args[0].value!r} is appended without being selected by an effect flag")
+    # table-driven form:  for flag_var, code_var in ((bold, "1"), ...): if flag_var: codes.append(code_var)
+    for a in apps:
+        if a.func.attr == "append" and a.args and isinstance(a.args[0], ast.Name):
+            loops = [l for l in enclosing_loops(a) if isinstance(l, ast.For) and isinstance(l.target, ast.Tuple) and any(is_name(x, a.args[0].id) for x in l.target.elts)]
+            if not loops:
+                continue
+            l = loops[0]
+            tbl = l.iter
+            if isinstance(tbl, ast.Name):
+                ds = [v for _, v in assignments(make, tbl.id) if v is not None]
+                tbl = ds[0] if len(ds) == 1 else None
+            if not (isinstance(tbl, (ast.Tuple, ast.List)) and all(isinstance(r, (ast.Tuple, ast.List)) and len(r.elts) == len(l.target.elts) for r in tbl.elts)):
+                raise AnalysisError("R09f", f"{REL}::_ColorSequences.make", "effects table is not a literal of rows")
+            kc = next(i for i, x in enumerate(l.target.elts) if is_name(x, a.args[0].id))
+            guards_ = [e.id for e, pol in facts(a, stop=l) if isinstance(e, ast.Name) and pol]
+            kg = [i for i, x in enumerate(l.target.elts) if isinstance(x, ast.Name) and x.id in guards_]
+            if len(kg) != 1:
+                cx.ob("R09f", a, False, "a table row's code is appended without being selected by that row's flag")
+                continue
+            for r in tbl.elts:
+                fl, cd = r.elts[kg[0]], r.elts[kc]
+                if isinstance(fl, ast.Name) and const(cd, str):
+                    eff.setdefault(fl.id, set()).add(cd.value)
+                else:
+                    raise AnalysisError("R09f", f"{REL}::_ColorSequences.make", f"effects table row {norm(r)} is not (flag parameter, code literal)")
     for flag, code in SGR_EFFECTS.items():
         got = eff.get(flag, set())
         cx.ob("R09f", make, got == {code}, f"{flag} -> SGR {code}" if got == {code} else f"{flag} maps to {sorted(got)} (SGR says {code})", stmt=f"effect {flag}")
@@ -292,15 +329,32 @@ def _check_elem(cx, elem, mod):
             g = any(isinstance(e, ast.Compare) and isinstance(e.ops[0], ast.In) and pol and is_name(e.left, pcolor) and norm(e.comparators[0]).endswith("_COLORS") for e, pol in facts(n))
             cx.ob("R09f", n, ok and g, "named colour: selector + digit of that name, guarded by membership" if ok and g else "named-colour element is not selector + table[colour] under a membership test")
         elif A.find_in_a_not_b(shp, ext_l)[0] is None:
-            ok = sel_name in uses and pcolor in uses
-            cx.ob("R09f", n, ok, "256-colour element is <selector>8:5:<code>" if ok else f"256-colour element does not use selector and code: {norm(v)}")
+            # the code that follows "8:5:": last formatted value / last operand
+            code_e = None
+            if isinstance(v, ast.JoinedStr):
+                fvs = [x for x in v.values if isinstance(x, ast.FormattedValue)]
+                code_e = fvs[-1].value if fvs else None
+            elif isinstance(v, ast.BinOp):
+                code_e = v.right.args[0] if isinstance(v.right, ast.Call) and call_name(v.right) == "str" and v.right.args else None
+            if code_e is None:
+                raise AnalysisError("R09f", f"{REL}::_make_seq_element", f"code operand of {norm(v)[:50]} not recognised")
+            ok = sel_name in uses
+            cx.ob("R09f", n, ok, "256-colour element is <selector>8:5:<code>" if ok else f"256-colour element does not use the selector: {norm(v)}")
             fs = facts(n)
-            lo = any(isinstance(e, ast.Compare) and is_name(e.left, pcolor) and isinstance(e.ops[0], ast.Lt) and not pol and const(e.comparators[0], int) and e.comparators[0].value == 0 for e, pol in fs)
-            hi = any(isinstance(e, ast.Compare) and is_name(e.left, pcolor) and isinstance(e.ops[0], ast.Gt) and not pol and const(e.comparators[0], int) and e.comparators[0].value == 255 for e, pol in fs) or \
-                any(isinstance(e, ast.Compare) and is_name(e.left, pcolor) and isinstance(e.ops[0], ast.GtE) and not pol and const(e.comparators[0], int) and e.comparators[0].value == 256 for e, pol in fs)
-            isint = any(isinstance(e, ast.Call) and call_name(e) == "isinstance" and pol and is_name(e.args[0], pcolor) and is_name(e.args[1], "int") for e, pol in fs)
-            cx.ob("R09f", n, lo and hi and isint, "code is an int checked against 0..255 on every path to the 8:5: form" if lo and hi and isint else
-                  f"code reaches the 8:5: form without the full range check (int={isint}, >=0:{lo}, <=255:{hi})", stmt=norm(n) + " [range]")
+            from sa.guards import int_bounds
+            lin_ = linear(code_e)
+            vars_ = [k for k in (lin_ or {}) if k != 1]
+            if lin_ is None or len(vars_) != 1 or lin_[vars_[0]] != 1:
+                raise AnalysisError("R09f", f"{REL}::_make_seq_element", f"code expression {norm(code_e)} is not <int variable> + constant")
+            var, off = vars_[0], lin_.get(1, 0)
+            lob, hib = int_bounds(fs, var)
+            lo = lob is not None and lob + off >= 0
+            hi = hib is not None and hib + off <= 255
+            isint = any(isinstance(e, ast.Call) and call_name(e) == "isinstance" and pol and is_name(e.args[0], var) and is_name(e.args[1], "int") for e, pol in fs) or \
+                all(isinstance(val, ast.Call) and call_name(val) == "int" or const(val, int) for _, val in assignments(elem, var) if val is not None) and var != pcolor
+            cx.ob("R09f", n, lo and hi and isint, f"code {norm(code_e)} is an int within 0..255 on every path to the 8:5: form" if lo and hi and isint else
+                  f"code {norm(code_e)} reaches the 8:5: form without the full range check (int={isint}, bounds of {var}: {lob}..{hib}, needed {-off}..{255 - off}): "
+                  "an invalid colour is emitted instead of raising ValueError", stmt=norm(n) + " [range]")
         else:
             cx.ob("R09f", n, False, f"unrecognised element form {norm(v)[:60]}")
     cx.at_least("R09f", "element return sites", n_ret, 2)
@@ -335,7 +389,9 @@ def _check_elem(cx, elem, mod):
             ok = lin == {1: 232, names[0]: 1}
             cx.ob("R09f", st, ok, "grey is 232 + shade" if ok else f"grey ramp is {lin}, xterm says 232 + shade")
             fs = facts(st)
-            lo = any(isinstance(e, ast.Compare) and is_name(e.left, names[0]) and isinstance(e.ops[0], ast.Lt) and not pol and const(e.comparators[0], int) and e.comparators[0].value == 0 for e, pol in fs)
+            from sa.guards import int_bounds
+            lob, _ = int_bounds(fs, names[0])
+            lo = lob is not None and lob >= 0
             cx.ob("R09f", st, lo, "negative shades are rejected" if lo else "a negative shade reaches 232 + shade (maps into the colour cube)", stmt=norm(st) + " [bounds]")
         else:
             cx.ob("R09f", st, False, f"unexpected colour computation {norm(v)}")
